@@ -2,6 +2,10 @@
 records of the height); behaviours with crashes at arbitrary points and torn last records replayed on real nodes
 (real WAL files cut inside the last line, real catchupReplay), plus probes that start a REAL ConsensusState
 (OnStart + receiveRoutine) on a copy of the node directory and compare it with the stepped restart."""
+import copy
+import os
+
+from .. import engine, tlc
 from . import tm_common as tm
 from .tm_family import Plan, run_family
 
@@ -28,6 +32,7 @@ def plan(tier):
                           crash_set=[1, 2, 4], own_first=False, useful_only=True, sync=True, torn=True,
                           next_power={2: [1, 1, 0, 1, 1]}), n, 160))
     p.probe_real_start = 1 if quick else 2
+    p.rotate_wal = 1
     p.env = {'VERIF_ORACLE_RESTORE': '1'}
     p.rule_extra = ('Crash points are every position of the behaviour; torn records are cut at a position derived from the '
                     'step index; RealStartProbe clones the node directory and runs the real OnStart/receiveRoutine.')
@@ -37,5 +42,88 @@ def plan(tier):
     return p
 
 
+WALSPEC = os.path.join(engine.VERIF, 'specs', 'walgroup')
+
+
+def run_walgroup(ctx, replay=None):
+    """The layer under Tendermint.tla's `wal`: WalGroup.tla (head file + rotated files + write buffer + marker search)
+    model-checked, every edge of the small state graph and simulated behaviours of the larger one replayed on the real
+    pbft.WAL / autofile.Group."""
+    engine.build_go(ctx, ['walgroup'])
+    if replay is not None:
+        rep = engine.run_driver(ctx, 'walgroup', [replay['trace']])
+        engine.collect(ctx, rep, [replay['trace']], 'walgroup')
+        return
+    quick = ctx.tier == 'quick'
+    traces = []
+    # sensitivity: the code before the two repairs must violate the replay property on the specification
+    for cfgf, expect in (('MC_WalGroup_orig.cfg', ('CurrentHeightFound', 'ReplayReadsLog', 'ReplayNoError')),
+                         ('MC_WalGroup_orig2.cfg', ('ReplayReadsLog', 'ReplayNoError', 'MarkersOrdered', 'CurrentHeightFound'))):
+        r = engine.tlc_check(ctx, WALSPEC, 'MC_WalGroup.tla', cfgf, name='WalGroup/' + cfgf[12:-4], workers=4, timeout=600)
+        if r.violation not in expect:
+            ctx.inconclusive.append('WalGroup %s: expected a violation of %s (pre-repair code), TLC reports %s %s'
+                                    % (cfgf, expect, r.violation, (r.error or '')[:200]))
+        else:
+            ctx.cov.setdefault('expected_spec_violations', []).append({'cfg': cfgf, 'property': r.violation})
+        # the sensitivity runs end with a violation by design: they are not part of the exhaustive coverage figures
+        ctx.cov['tlc_runs'][-1]['exhaustive'] = False
+        tlc.cleanup(r)
+    for name in (['g', 'q'] if quick else ['g', 'q', 't']):
+        dump = name == 'g'
+        r = engine.tlc_check(ctx, WALSPEC, 'MC_WalGroup.tla', 'MC_WalGroup_%s.cfg' % name, name='WalGroup/' + name, dump=dump,
+                             workers=8, timeout=900 if quick else 3600)
+        if r.violation:
+            ctx.inconclusive.append('WalGroup.tla: invariant %s violated in configuration %s (specification defect unless the '
+                                    'replay reproduces it)' % (r.violation, name))
+        if dump and r.scratch:
+            g = tlc.parse_dot(os.path.join(r.scratch, 'graph.dot'), drop_vars=())
+            paths, cov, want = tlc.edge_cover_paths(g, ctx.rng, max_len=24)
+            ctx.log('walgroup graph %s: %d states %d edges -> %d paths covering %d/%d edges' % (name, len(g.states), len(g.edges), len(paths), cov, want))
+            ctx.cov['walgroup_graph_edges_covered'] = cov
+            ctx.cov['walgroup_graph_edges_total'] = want
+            for k, p in enumerate(paths):
+                t = tlc.path_to_steps(g, p)
+                t['cfg'] = {}
+                t['id'] = 'walgroup-graph-%d' % k
+                traces.append(t)
+        tlc.cleanup(r)
+    for name, num, depth in ([('q', 150, 24), ('t', 100, 30)] if quick else [('q', 1500, 26), ('t', 1500, 34)]):
+        r, ts = tlc.simulate_traces(WALSPEC, 'MC_WalGroup.tla', 'MC_WalGroup_%s.cfg' % name, num, depth, ctx.seed, drop_vars=())
+        ctx.add_tlc('WalGroup/sim-' + name, r, exhaustive=False)
+        for k, t in enumerate(ts):
+            t['cfg'] = {}
+            t['id'] = 'walgroup-sim-%s-%d-%d' % (name, ctx.seed, k)
+            traces.append(t)
+    # binding self-test: a corrupted expectation (one more replayed record) must be rejected
+    probe = None
+    for t in traces:
+        for si, st in enumerate(t['steps']):
+            if st['a'] == 'Start':
+                probe = copy.deepcopy(t)
+                probe['steps'] = probe['steps'][:si + 1]
+                probe['steps'][si]['post']['chk']['got'] = list(probe['steps'][si]['post']['chk']['got']) + [9]
+                break
+        if probe:
+            break
+    if probe:
+        rep = engine.run_driver(ctx, 'walgroup', [probe])
+        ctx.cov['walgroup_binding_selftest'] = 'rejected' if rep.get('failures') else 'ACCEPTED'
+        if not rep.get('failures'):
+            ctx.inconclusive.append('walgroup binding self-test: corrupted trace accepted')
+    rep = engine.run_driver(ctx, 'walgroup', traces, timeout=1800)
+    engine.collect(ctx, rep, traces, 'walgroup')
+    ctx.cov['walgroup_traces'] = rep['traces']
+    ctx.cov['walgroup_steps'] = rep['steps']
+    ctx.cov['walgroup_checks'] = rep['checks']
+    ctx.cov['walgroup_counters'] = rep.get('counters', {})
+    ctx.assumptions.append('WAL group: deletion of the oldest files by the total-size limit (1 GiB) is not modelled; a record is '
+                           'only ever torn in the file that was the head when the process died')
+
+
 def run(ctx, replay=None):
+    if replay is not None and (replay.get('engine') == 'walgroup'):
+        run_walgroup(ctx, replay)
+        return
+    if replay is None:
+        run_walgroup(ctx)
     run_family(ctx, plan(ctx.tier), replay)
